@@ -10,6 +10,7 @@ use crate::text::{self, list, split_list};
 use ross_protocol::frame::*;
 use ross_protocol::interface::{can::Can, serial::Serial, usart::Usart, Interface, InterfaceError};
 use ross_protocol::packet::{Packet, PacketBuilder, PacketBuilderError};
+use std::collections::VecDeque;
 use std::panic::{catch_unwind, AssertUnwindSafe};
 use std::sync::{Arc, Mutex};
 
@@ -1674,7 +1675,11 @@ fn exec_e2e(t: &[&str]) -> Option<String> {
     }
     let status;
     if link == "can" {
-        let sh = Arc::new(Mutex::new(CanScript::default()));
+        // back-pressure on the sending side too, derived from the seed: every mailbox request may be answered "busy" a few
+        // times first (the sender retries; what reaches the bus must be the same frames)
+        let mut br = Rng(seed ^ 0x5eed_0001);
+        let tresp: VecDeque<char> = (0..400).map(|_| if br.below(4) == 0 { '.' } else { 's' }).collect();
+        let sh = Arc::new(Mutex::new(CanScript { tresp, ..Default::default() }));
         let sent = guard(|| {
             let mut pa = Protocol::new(a, Can::new(bxcan::Can::new(CanDev(sh.clone()))));
             evs.iter().all(|e| pa.send_packet(&e.to_packet()).is_ok())
@@ -1688,7 +1693,15 @@ fn exec_e2e(t: &[&str]) -> Option<String> {
         let (r1, r2) = (rx.clone(), rx.clone());
         status = run_node_b!(Can::new(bxcan::Can::new(CanDev(rx.clone()))), || r1.lock().unwrap_or_else(|e| e.into_inner()).rx.len(), || r2.lock().unwrap_or_else(|e| e.into_inner()).dry_reads = 0);
     } else {
-        let sh: Shared = Arc::new(Mutex::new(ByteScript::default()));
+        // back-pressure on the sending side too, derived from the seed: the USART answers "would block" to some writes, the
+        // serial port accepts only a few bytes per write call (short writes) or is interrupted — the wire must be the same bytes
+        let mut br = Rng(seed ^ 0x5eed_0002);
+        let wresp: VecDeque<char> = (0..600).map(|_| if br.below(4) == 0 { '.' } else { 'a' }).collect();
+        let io_resp: VecDeque<IoResp> = match br.below(4) {
+            0 => VecDeque::new(),
+            k => (0..3000).map(|_| if br.below(9) == 0 { IoResp::Interrupted } else { IoResp::Wrote([1usize, 3, 64][k as usize - 1] + br.below(3) as usize) }).collect(),
+        };
+        let sh: Shared = Arc::new(Mutex::new(ByteScript { wresp, io_resp, ..Default::default() }));
         let sent = guard(|| {
             if link == "usart" {
                 let mut pa = Protocol::new(a, Usart::new(UsartDev(sh.clone())));
